@@ -1153,7 +1153,27 @@ Definition znull : Z := (-999999)%Z.   (* stands for NULL in the abstract rows *
 Definition project (from : list str) (to : list str) (row : list Z) : list Z :=
   map (fun c => match index_of c from with Some k => nth k row znull | None => znull end) to.
 
-Inductive evo_op := EAdd (c : coldecl) | EDel (n : str).   (* n = final python name *)
+(* addColumn / delColumn with changeSchema=True, and the same with changeSchema=False
+   (n = final python name) *)
+Inductive evo_op := EAdd (c : coldecl) | EDel (n : str) | EAddNoSchema (c : coldecl) | EDelNoSchema (n : str).
+Definition changes_schema (op : evo_op) : bool :=
+  match op with EAdd _ | EDel _ => true | _ => false end.
+
+(* attributes every SQLObject class has (those the case generator draws colliding names from) *)
+Definition so_attrs : list str :=
+  map s2l ["expire"; "sync"; "set"; "destroySelf"; "select"; "get"; "q"; "j"; "sqlmeta"; "delete";
+           "selectBy"; "syncUpdate"; "sqlrepr"; "tableExists"; "createTable"; "_connection"].
+(* sqlmeta.addColumn refuses (AssertionError) a column whose name is `id`, is the name of a column
+   the class has, or is an attribute of the class (a method, a declared index) -- before anything
+   is changed *)
+Definition add_clash (dc : decl) (c : coldecl) : bool :=
+  let n := final_name c in
+  str_eqb n (s2l "id")
+  || existsb (fun x => str_eqb (final_name x) n) (d_cols dc)
+  || mem_str n so_attrs
+  || existsb (fun ix => str_eqb (i_name ix) n) (d_indexes dc).
+Definition del_known (dc : decl) (n : str) : bool :=
+  existsb (fun c => str_eqb (final_name c) n) (d_cols dc).
 
 Record evo_state := { e_decl : decl; e_db : dbstate }.
 
@@ -1179,7 +1199,8 @@ Definition evo_step (s : evo_state) (op : evo_op) : evo_state * bool :=
                    | Some t => match t_rows t with [] => true | _ => false end
                    | None => true
                    end in
-      if table_exists (e_db s) tn && sqlite_add_ok empty c then
+      if add_clash dc c then (s, true)
+      else if table_exists (e_db s) tn && sqlite_add_ok empty c then
         ({| e_decl := dc';
             e_db := {| db_tables := map_table (e_db s) tn (fun t =>
                                       {| t_name := tn; t_cols := t_cols t ++ [dbname_of (d_style dc) c];
@@ -1228,6 +1249,13 @@ Definition evo_step (s : evo_state) (op : evo_op) : evo_state * bool :=
              true)
       | None => ({| e_decl := dc'; e_db := e_db s |}, true)
       end
+  | EAddNoSchema c =>
+      if add_clash dc c then (s, true)
+      else ({| e_decl := set_cols dc (d_cols dc ++ [c]); e_db := e_db s |}, false)
+  | EDelNoSchema n =>
+      if del_known dc n
+      then ({| e_decl := set_cols dc (filter (fun c => negb (str_eqb (final_name c) n)) (d_cols dc)); e_db := e_db s |}, false)
+      else (s, true)
   end.
 
 Fixpoint evo_run (s : evo_state) (ops : list evo_op) : evo_state * bool :=
@@ -1241,8 +1269,16 @@ Fixpoint evo_run (s : evo_state) (ops : list evo_op) : evo_state * bool :=
    delColumn of a column the class has *)
 Definition op_ok (dc : decl) (op : evo_op) : bool :=
   match op with
-  | EAdd c => sqlite_add_ok false c
-  | EDel n => existsb (fun c => str_eqb (final_name c) n) (d_cols dc)
+  | EAdd c => sqlite_add_ok false c && negb (add_clash dc c)
+  | EDel n => del_known dc n
+  | EAddNoSchema c => negb (add_clash dc c)
+  | EDelNoSchema n => del_known dc n
+  end.
+(* an op the class refuses before anything changes *)
+Definition op_refused (dc : decl) (op : evo_op) : bool :=
+  match op with
+  | EAdd c | EAddNoSchema c => add_clash dc c
+  | EDel n | EDelNoSchema n => negb (del_known dc n)
   end.
 Fixpoint ops_ok (s : evo_state) (ops : list evo_op) : bool :=
   match ops with
